@@ -194,8 +194,8 @@ pub fn run(ctx: &mut Ctx) {
     //    checked against the request being answered only (nothing from earlier rounds)
     for s in 0..(if ctx.thorough { 300 } else { 25 }) {
         let c0 = gen_case(ctx, None);
-        if c0.held.is_empty() { continue; }
-        let Some(docs) = build_docs(&pki, &template, &c0) else { continue };
+        if c0.held.is_empty() { eprintln!("empty held"); continue; }
+        let Some(docs) = build_docs(&pki, &template, &c0) else { eprintln!("no docs"); continue };
         let init = isomdl::presentation::device::SessionManagerInit::initialise(docs, None, None).unwrap();
         let (eng, qr) = init.qr_engagement().unwrap();
         let (mut rdr, est, _) = isomdl::presentation::reader::SessionManager::establish_session(qr, sess::simple_namespaces(&["x"]), TrustAnchorRegistry::default()).unwrap();
@@ -206,15 +206,26 @@ pub fn run(ctx: &mut Ctx) {
             c.held = c0.held.clone();
             if c.req.is_empty() { continue; }
             if round > 0 { let m = rdr.new_request(sess::simple_namespaces(&["x"])).unwrap(); dev.handle_request(&m); }
-            dev.prepare_response(&to_requests(&c), to_permitted(&c));
+            // sometimes an earlier request was prepared (and maybe partly signed) but never completed:
+            // nothing of it may show up in the answer to the request being answered now
+            if ctx.rng.gen_bool(0.35) {
+                let mut old = gen_case(ctx, None);
+                old.held = c0.held.clone();
+                if !old.req.is_empty() {
+                    isomdl::presentation::device::SessionManager::prepare_response(&mut dev, &to_requests(&old), to_permitted(&old));
+                    if ctx.rng.gen_bool(0.5) && dev.get_next_signature_payload().is_some() { dev.submit_next_signature(vec![8; 64]).unwrap(); }
+                    if dev.response_ready() { let _ = dev.retrieve_response(); }
+                }
+            }
+            isomdl::presentation::device::SessionManager::prepare_response(&mut dev, &to_requests(&c), to_permitted(&c));
             let mut guard = 0;
             while dev.get_next_signature_payload().is_some() && guard < 10 { dev.submit_next_signature(vec![9; 64]).unwrap(); guard += 1; }
             if !dev.response_ready() { dev.submit_next_signature(vec![9; 64]).unwrap(); }
-            let Some(msg) = dev.retrieve_response() else { continue };
+            let Some(msg) = dev.retrieve_response() else { eprintln!("no response"); continue };
             let sd: SessionData = cbor::from_slice(&msg).unwrap();
             let ct: Vec<u8> = sd.data.unwrap().into();
             let n = sess::peek_device(&dev).dev_ctr;
-            let Some(pt) = sess::aes_dec(&sk_device, &sess::iv_bytes(false, n), &ct) else { continue };
+            let Some(pt) = sess::aes_dec(&sk_device, &sess::iv_bytes(false, n), &ct) else { eprintln!("undecryptable n={n}"); continue };
             let resp: DeviceResponse = cbor::from_slice(&pt).unwrap();
             let docs_r = resp.documents.map(|v| v.into_inner()).unwrap_or_default().into_iter().map(|d| (d.doc_type.clone(),
                 d.issuer_signed.namespaces.map(|m| m.into_inner().into_iter().map(|(ns, v)| (ns, v.into_inner())).collect()).unwrap_or_default(),
